@@ -13,8 +13,8 @@ import vlib
 
 LIBS = ("mpt++", "mptplot", "mptcore")      # link order of an application using libmpt++: its metatype creators override the C ones
 CFG = {
-    "quick":    dict(mc="MC_LayoutTree.cfg",   gen="Gen_LayoutTree.cfg",   ndocs=40,  nitems=14),
-    "thorough": dict(mc="MC_LayoutTree_t.cfg", gen="Gen_LayoutTree_t.cfg", ndocs=300, nitems=30),
+    "quick":    dict(mc=["MC_LayoutTree.cfg"], gen="Gen_LayoutTree.cfg", ndocs=40, nitems=14),
+    "thorough": dict(mc=["MC_LayoutTree_t.cfg", "MC_LayoutTree_t2.cfg"], gen="Gen_LayoutTree_t.cfg", ndocs=300, nitems=30),
 }
 DRV_ENV = {"ASAN_OPTIONS": vlib.ASAN_ENV + ":symbolize=0"}
 STRPROPS = ("title", "alias", "value", "font", "axes", "worlds")
@@ -358,20 +358,26 @@ def run_part(ck, tier):
 
     def job_model():
         if os.environ.get("X20_DEV_SKIP_MC"):        # development aid only (code mutations do not touch the model)
-            return None
-        return vlib.tlc("MC_LayoutTree", cfg["mc"], workers=max(2, vlib.NCPU // 2), timeout=1500, xss="512m")
+            return []
+        with concurrent.futures.ThreadPoolExecutor(max_workers=2) as ex2:
+            futs = [ex2.submit(vlib.tlc, "MC_LayoutTree", c, workers=max(2, vlib.NCPU // 2), timeout=1500, xss="512m",
+                               tag="MC_LayoutTree_%d" % i) for i, c in enumerate(cfg["mc"])]
+            return [(c, f.result()) for c, f in zip(cfg["mc"], futs)]
 
     def job_gen():
         if tier == "quick":
-            g = vlib.tlc("Gen_LayoutTree", cfg["gen"], workers=max(2, vlib.NCPU // 2), timeout=1200, xss="512m")     # word splitting recurses per character
-            if g.error or g.violation:
-                raise vlib.MachineryError("X20 case export failed: %s %s" % (g.error, g.violation))
-            behs = vlib.parse_behaviours(g.out)
+            # (to a file: vlib.tlc's result patterns are slow on 20 MB of digit lists; -Xss: word splitting recurses per character)
+            g = vlib.tlc_to_file("Gen_LayoutTree", cfg["gen"], dump, workers=max(2, vlib.NCPU // 2), timeout=1200,
+                                 extra_env={"JAVA_TOOL_OPTIONS": "-Xss512m"})
+            if g.error:
+                raise vlib.MachineryError("X20 case export failed: %s" % g.error)
+            with open(dump, errors="replace") as fh:
+                behs = vlib.parse_behaviours(fh.read())
+            os.unlink(dump)
             script = vlib.to_script(behs)
-            out = []
-            for drv, pfx in ((exe, ""), (exe_c, PFX_C)):
-                recs, _ = vlib.run_driver(drv, script, env=DRV_ENV, timeout=1200)
-                out.append((pfx, vlib.compare(behs, recs, match)))
+            with concurrent.futures.ThreadPoolExecutor(max_workers=2) as ex2:       # the two link orders side by side
+                futs = [(pfx, ex2.submit(vlib.run_driver, drv, script, env=DRV_ENV, timeout=1200)) for drv, pfx in ((exe, ""), (exe_c, PFX_C))]
+                out = [(pfx, vlib.compare(behs, f.result()[0], match)) for pfx, f in futs]
             return behs, out, g, len(behs), len(set(json.dumps(b[0]["arg"].get("text")) + b[-1]["a"] for b in behs if nontrivial(b)))
         g = vlib.tlc_to_file("Gen_LayoutTree", cfg["gen"], dump, workers=6, timeout=1500, extra_env={"JAVA_TOOL_OPTIONS": "-Xss512m"})
         if g.error:
@@ -402,8 +408,8 @@ def run_part(ck, tier):
             nbeh, nt = tot["n"], nt | tot["nontrivial"]
         nnt = len(nt)
         os.unlink(dump)
-    if mc is not None:
-        ck.add_tlc(mc, "x20 exhaustive " + cfg["mc"])
+    for c, res in mc:
+        ck.add_tlc(res, "x20 exhaustive " + c)
     ck.cov["transitions"] += gen.generated + rres.generated
     nmm = 0
     for ent in gout:
